@@ -467,14 +467,15 @@ class ExcelCompiler:
             cell_or_range.value = value
 
     def _reset(self, cell):
-        if cell.needs_calc:
+        if cell.needs_calc and not cell.address.is_range:
             return
         self.log.info(f"Resetting {cell.address}")
         cell.value = None
 
         if cell in self.dep_graph:
             for child_cell in self.dep_graph.successors(cell):
-                if child_cell.value is not None:
+                # a range which was not (re)evaluated can have evaluated dependants
+                if child_cell.value is not None or child_cell.address.is_range:
                     self._reset(child_cell)
 
     def value_tree_str(self, address, indent=0):
